@@ -6,6 +6,8 @@ import Valida.Codec
 import Valida.Heap
 import Valida.Spec.Ser
 import Valida.AddSchema
+import Valida.Tree
+import Valida.Html
 open Lean (Json)
 open Valida Valida.Codec ValidaGen
 
@@ -67,6 +69,54 @@ def encFD (fd : FD) (d : DataV) : Json :=
 
 def sortWithIdx (rules : List RuleM) : List (Nat × RuleM) :=
   (List.zip (List.range rules.length) rules).mergeSort (fun a b => ruleLe a.2 b.2)
+
+def strList (j : Json) : P (List String) := do (← arr j).toList.mapM str
+
+partial def decTCond (j : Json) : P TCond := do
+  let a ← arr j
+  match ← str a[0]! with
+  | "leaf" => do pure (.leaf { cls := ← str a[1]!, fn := ← str a[2]!, keyStrs := ← strList a[3]!, keyDisp := ← strList a[4]! })
+  | "bin" => do pure (.bin (← str a[1]!) (← decTCond a[2]!) (← decTCond a[3]!))
+  | t => throw s!"bad tcond {t}"
+
+def decTRule (j : Json) : P TRule := do
+  let a ← arr j
+  pure { partStrs := ← strList a[0]!, simpleDisp := ← strList a[1]!, implTypes := ← strList a[2]!, lastBare := ← str a[3]!,
+         cond := ← decTCond a[4]! }
+
+def encOptStrs : Option (List String) → Json
+  | none => .null
+  | some xs => .arr (xs.map Json.str).toArray
+
+def encTItem (i : TItem) : Json :=
+  Json.mkObj [("path_str", .arr (i.pathStr.map Json.str).toArray), ("rule", match i.rule with | some n => .num n | none => .null),
+    ("path", encOptStrs i.path), ("required", match i.required with | some b => .bool b | none => .null),
+    ("type", .str i.typ), ("key_type", .bool i.keyType), ("list_value_type", .bool i.listValueType),
+    ("map_value_type", .bool i.mapValueType), ("type_info_in_parent", .bool i.typeInfoInParent),
+    ("parent", match i.parent with | .ofNat n => .num n | .negSucc _ => .num (-1 : Int))]
+
+partial def encTNode : TNode → Json
+  | .mk item children => Json.mkObj [("item", encTItem item), ("children", .arr (children.map encTNode).toArray)]
+
+def optStr (j : Json) : P (Option String) :=
+  match j with
+  | .null => pure none
+  | _ => do pure (some (← str j))
+
+partial def decHNode (j : Json) : P HtmlNode := do
+  let a ← arr j
+  let path ← (← arr a[0]!).toList.mapM (fun e => do
+    let p ← arr e
+    match ← str p[0]! with
+    | "map" => pure PathElem.bareMap
+    | "list" => pure PathElem.bareList
+    | _ => do pure (PathElem.text (← str p[1]!)))
+  let children ← match a[12]! with
+    | .null => pure none
+    | c => do pure (some (← (← arr c).toList.mapM decHNode))
+  pure { path := path, pathStr := ← str a[1]!, typeInfoInParent := ← bool a[2]!, typeFmt := ← str a[3]!, keyTypeFmt := ← str a[4]!,
+         mapValFmt := ← str a[5]!, listValFmt := ← str a[6]!, required := ← bool a[7]!, condStr := ← str a[8]!,
+         hasDoc := ← bool a[9]!, description := ← strList a[10]!, examples := ← strList a[11]!, children := children }
 
 def handle (j : Json) : P Json := do
   let a ← arr j
@@ -171,6 +221,22 @@ def handle (j : Json) : P Json := do
         let s' := addSchema acc.1 c.1 c.2
         (s', acc.2 ++ [Json.arr (s'.map encRule).toArray])) (Schema.mk' s0, [])
       pure (Json.arr outs.toArray)
+  | "tree" => do
+      let rules ← (← arr a[1]!).toList.mapM decTRule
+      let fromStr ← strList a[2]!
+      let fl ← optStr a[3]!
+      let fd ← optStr a[4]!
+      match toTreeFlat rules fromStr fl fd with
+      | .ok flat => pure (Json.arr #["ok", Json.mkObj [("flat", .arr (flat.map encTItem).toArray),
+                                                         ("nested", .arr ((toTreeNested flat).map encTNode).toArray)]])
+      | .error e => pure (encExc e)
+  | "html" => do
+      let nodes ← (← arr a[1]!).toList.mapM decHNode
+      let anchor ← str a[2]!
+      let headStart ← nat a[3]!
+      let showRoot ← bool a[4]!
+      let toks := writeTree 64 nodes none anchor headStart showRoot 0
+      pure (Json.mkObj [("html", .str (renderToks toks)), ("dyck", .bool (dyck [] toks))])
   | "mkpart" => do
       let kind ← decPartKind (← str a[1]!)
       let key ← decDatumSpec a[2]!
